@@ -386,8 +386,13 @@ def run(ctx: Ctx) -> None:
         local_names = sorted(set(_DR._eval_expressions.__code__.co_varnames) | set(_DR._resolve_reference.__code__.co_varnames) | set(_DR.read.__code__.co_varnames))
     except Exception:  # noqa: BLE001
         local_names = ["key", "item", "expression", "variables"]
-    for nm in local_names + ["undefined_name", "logger"]:
-        if nm.isidentifier() and not nm.startswith("__"):
+    try:
+        import sys as _sys
+        intended = set(vars(_sys.modules[_DR.__module__]))      # math / numpy names the reader makes available on purpose (e, pi, sqrt, ...)
+    except Exception:  # noqa: BLE001
+        intended = {"e", "pi"}
+    for nm in local_names + ["undefined_name"]:
+        if nm.isidentifier() and not nm.startswith("__") and nm not in intended:
             cases.append({"kind": "freename", "name": nm})
     corpus = [{"a": ("lit", 1), "ab": ("lit", 20), "c": ("expr", "$a + $ab", ["a", "ab"])},
               {"x": ("lit", 1), "x1": ("lit", 5), "y": ("expr", "$x + $x1", ["x", "x1"])},
